@@ -1,8 +1,105 @@
-(* C13 - every entry handed to the session is released exactly once. (theorems follow) *)
-From stdpp Require Import gmap.
-From P9 Require Import Model.Path Model.Session.
+(* C13 - every entry the file system hands to the session and that becomes
+   bound to a fid is released exactly once, never used after its release and
+   never released while it stays bound; after Stop nothing remains bound.
+   For every operation sequence and every pattern of file-system failures.
+   Only statements: each is closed by [exact lemma]; Print Assumptions follows.
 
-Example C13_inplace_walk_drops_file :
+   Vocabulary (Model/Session.v ghost state, Proofs/SessionGhost.v):
+     after ops         the session state after running ops from the empty session
+     B s f e           fid f is bound to entry e in s
+     released s        the release events so far: (entry, cause), one per Clunk / Remove call the
+                       session made on an entry or consumption of a parent's handle by a successful Create
+     rel s             the entries of [released s]
+     bound_ever s      every entry that has been bound to a fid
+     bad_use s         entries on which the session made a file-system call (on the entry, its File
+                       or its ReadNext) after their release *)
+From stdpp Require Import gmap.
+From Coq Require Import NArith ZArith.
+From P9 Require Import Model.Path Model.Session Model.FidSpec
+  Proofs.SessionProofs Proofs.SessionGhost Proofs.SessionClauses.
+Open Scope N_scope.
+
+(* released at most once *)
+Theorem C13_once : ∀ ops, no_stop ops → NoDup (rel (after ops)).
+Proof. exact c13_once. Qed.
+Print Assumptions C13_once.
+
+(* released at least once: whatever was bound and no longer is, has been released *)
+Theorem C13_all : ∀ ops e, no_stop ops →
+  e ∈ bound_ever (after ops) → (∃ f, B (after ops) f e) ∨ e ∈ rel (after ops).
+Proof. exact c13_all. Qed.
+Print Assumptions C13_all.
+
+(* never released while it stays bound *)
+Theorem C13_not_while_bound : ∀ ops f e, no_stop ops → B (after ops) f e → e ∉ rel (after ops).
+Proof. exact c13_not_while_bound. Qed.
+Print Assumptions C13_not_while_bound.
+
+(* an entry is bound to at most one fid (so releasing it through one fid cannot hit another) *)
+Theorem C13_bound_once : ∀ ops f g e, no_stop ops → B (after ops) f e → B (after ops) g e → f = g.
+Proof. exact c13_bound_once. Qed.
+Print Assumptions C13_bound_once.
+
+(* never used after its release *)
+Theorem C13_no_use_after : ∀ ops, no_stop ops → bad_use (after ops) = [].
+Proof. exact c13_no_use_after. Qed.
+Print Assumptions C13_no_use_after.
+
+(* the release of a once-bound entry has one of the five causes of the property text:
+   clunk, remove, consumed by a successful create, replaced by an in-place walk, stop *)
+Theorem C13_causes : ∀ ops e c, no_stop ops →
+  (e, c) ∈ released (after ops) → e ∈ bound_ever (after ops) → bound_cause c.
+Proof. exact c13_causes. Qed.
+Print Assumptions C13_causes.
+
+(* Stop at any point: afterwards nothing is bound, every entry that was ever bound has been
+   released - exactly once, never used afterwards *)
+Theorem C13_stop : ∀ ops ts, no_stop ops →
+  let s' := after (ops ++ [(OStop, ts)]) in
+  NoDup (rel s') ∧ (∀ f e, ¬ B s' f e) ∧
+  bound_ever s' = bound_ever (after ops) ∧
+  (∀ e, e ∈ bound_ever s' → e ∈ rel s') ∧
+  bad_use s' = [] ∧
+  (∀ e c, (e, c) ∈ released s' → e ∈ bound_ever s' → bound_cause c).
+Proof. exact c13_stop. Qed.
+Print Assumptions C13_stop.
+
+(* the invariant behind these, preserved by every single operation from any well-formed state *)
+Theorem C13_step_invariant : ∀ s o ts, WF s → G s → is_stop o = false → G (sstep s o ts).1.1.
+Proof. exact step_G. Qed.
+Print Assumptions C13_step_invariant.
+
+(* ---- non-vacuity: a run in which each of the five causes occurs, with file-system failures ---- *)
+Definition ex13_ops : list (op * list tok) :=
+  [ (OAttach 0 NOFID, [Tok 0 true 0]);            (* entry 0 *)
+    (OWalk 0 1 [[97]], [Tok 0 true 1]);           (* entry 1 *)
+    (OWalk 0 2 [], [Tok 0 true 0]);               (* entry 2 *)
+    (OWalk 0 3 [], [Tok 0 true 0]);               (* entry 3 *)
+    (OOpen 1 0, []);
+    (OWalk 1 1 [[98]], [Tok 0 false 1; Tok 1 false 0]);   (* in place: entry 1 replaced by entry 4; its Clunk fails *)
+    (OCreate 2 [110] 1, [Tok 0 false 0]);         (* entry 2 consumed, entry 5 *)
+    (OClunk 3, [Tok 1 false 0]);                  (* Clunk of entry 3 returns an error *)
+    (ORemove 1, []);                              (* entry 4 *)
+    (OCreate 0 [110] 0, [Tok 0 true 0; Tok 1 false 0]) ]. (* entry 0 consumed; new dir 6 cannot be opened: dropped *)
+
+Example C13_ex_released :
+  released (after ex13_ops)
+  = [(1, RcWalk); (2, RcCreate); (3, RcClunk); (4, RcRemove); (0, RcCreate); (6, RcDrop)]
+  ∧ bound_ever (after ex13_ops) = [5; 4; 3; 2; 1; 0]
+  ∧ bad_use (after ex13_ops) = []
+  ∧ no_stop ex13_ops.
+Proof. split_and!; try (vm_compute; reflexivity). repeat constructor. Qed.
+
+Example C13_ex_bound : B (after ex13_ops) 2 5 ∧ 5 ∈ bound_ever (after ex13_ops).
+Proof. split; [eexists _, _; vm_compute; done|vm_compute; set_solver]. Qed.
+
+Example C13_ex_stop :
+  released (after (ex13_ops ++ [(OStop, [])]))
+  = [(1, RcWalk); (2, RcCreate); (3, RcClunk); (4, RcRemove); (0, RcCreate); (6, RcDrop); (5, RcStop)].
+Proof. vm_compute. reflexivity. Qed.
+
+(* the in-place walk of an open directory fid no longer keeps the replaced entry's Readdir *)
+Example C13_ex_inplace_walk_drops_file :
   bad_use (final sess0 (srun sess0 [(OAttach 0 NOFID, [Tok 0 true 0]); (OOpen 0 0, []);
                                     (OWalk 0 0 [[97]], [Tok 0 true 1]); (ORead 0, [])])) = [].
 Proof. vm_compute. reflexivity. Qed.
